@@ -898,7 +898,12 @@ class OmniParser(PVLParser):
                         )
                         return module, False  # return through parse_module()
                 else:
+                    # The previous value cannot be a parameter name, so
+                    # this equals sign is not an empty assignment.  Return
+                    # it and signal parse_module() that it should ignore
+                    # us, otherwise it would be peeked at forever.
                     tokens.send(t)
+                    raise Exception
             else:
                 # The next token isn't an equals sign or the module is
                 # empty, so we want return the token and signal
